@@ -21,22 +21,56 @@ def _run_driver(lines):
     return out
 
 
+def _communicate_idle(binary, data, idle, total):
+    """runs the harness on [data]; gives up when it has printed nothing for [idle] seconds (it prints a BEGIN line before
+    every case and an answer after it) or after [total] seconds.  Returns (stdout lines, return code, timed_out)."""
+    import select
+    import time
+    with tempfile.TemporaryFile() as tf:
+        tf.write(data.encode("utf-8"))
+        tf.seek(0)
+        p = subprocess.Popen([binary], stdin=tf, stdout=subprocess.PIPE, stderr=subprocess.DEVNULL)
+        fd = p.stdout.fileno()
+        buf = []
+        start = last = time.time()
+        timed_out = False
+        while True:
+            r, _, _ = select.select([fd], [], [], 1.0)
+            if r:
+                chunk = os.read(fd, 1 << 16)
+                if not chunk:
+                    break
+                buf.append(chunk)
+                last = time.time()
+                continue
+            now = time.time()
+            if now - last > idle or now - start > total:
+                timed_out = True
+                p.kill()
+                break
+        p.wait()
+        if timed_out:
+            try:
+                while True:
+                    chunk = os.read(fd, 1 << 16)
+                    if not chunk:
+                        break
+                    buf.append(chunk)
+            except OSError:
+                pass
+        p.stdout.close()
+    return b"".join(buf).decode("utf-8", "replace").splitlines(), (-9 if timed_out else p.returncode), timed_out
+
+
 def _run_harness(lines, binary, timeout_per_case=10.0):
     """The harness prints '<id> I BEGIN' before each case, so that a process death (stack
     overflow, abort) or a hang is attributed to the case that caused it; the rest is re-run."""
     out = []
     rest = list(lines)
+    hangs_here = 0
     while rest:
-        try:
-            p = subprocess.run([binary], input="".join(rest), capture_output=True, text=True,
-                               timeout=max(30.0, timeout_per_case * len(rest) / 50.0 + 30.0))
-            got = p.stdout.splitlines()
-            rc = p.returncode
-            timed_out = False
-        except subprocess.TimeoutExpired as e:
-            got = (e.stdout or b"").decode("utf-8", "replace").splitlines() if isinstance(e.stdout, bytes) else (e.stdout or "").splitlines()
-            rc = -9
-            timed_out = True
+        got, rc, timed_out = _communicate_idle(binary, "".join(rest), IDLE_TIMEOUT,
+                                               max(30.0, timeout_per_case * len(rest) / 50.0 + 30.0))
         begun = [l.split("\t")[0] for l in got if l.endswith("\tI\tBEGIN")]
         answered = set(l.split("\t")[0] for l in got if "\tI\t" in l and not l.endswith("\tI\tBEGIN"))
         out.extend(l for l in got if not l.endswith("\tI\tBEGIN"))
@@ -52,11 +86,19 @@ def _run_harness(lines, binary, timeout_per_case=10.0):
             out.append("__harness__\tI\tHARNESSFAIL\trc=%s" % rc)
             break
         verdict = "TIMEOUT" if timed_out else "ABORT"
+        if timed_out and HANGS["confirmed"] >= 3:
+            # three hangs are already confirmed in this run: nothing more is learnt from this shard
+            out.extend("%s\tI\tSKIPPED_AFTER_HANGS" % i for i in ids[ids.index(culprit):])
+            break
         if timed_out:
             # a shard on a loaded machine can exceed its budget without any case hanging: the case gets a process and a
             # generous budget of its own before it is called a hang
+            # (once one hang has been confirmed with the full budget the run is failing anyway: later suspects get a short
+            # budget, and a shard that has produced two hangs, or times out after three hangs are confirmed anywhere, is abandoned - its remaining cases are reported as SKIPPED -
+            # so that a change which makes hundreds of cases hang is reported in minutes, not hours)
+            budget = CONFIRM_TIMEOUT if not HANGS["confirmed"] else CONFIRM_SHORT
             try:
-                p1 = subprocess.run([binary], input=rest[ids.index(culprit)], capture_output=True, text=True, timeout=CONFIRM_TIMEOUT)
+                p1 = subprocess.run([binary], input=rest[ids.index(culprit)], capture_output=True, text=True, timeout=budget)
                 alone = [l for l in p1.stdout.splitlines() if "\tI\t" in l and not l.endswith("\tI\tBEGIN")]
                 if p1.returncode == 0 and alone:
                     out.extend(alone)
@@ -64,14 +106,21 @@ def _run_harness(lines, binary, timeout_per_case=10.0):
                 elif p1.returncode != 0:
                     verdict = "ABORT"
             except subprocess.TimeoutExpired:
-                pass
+                HANGS["confirmed"] += 1
+                hangs_here += 1
         if verdict:
             out.append("%s\tI\t%s" % (culprit, verdict))
         rest = rest[ids.index(culprit) + 1:]
+        if hangs_here >= 2:
+            out.extend("%s\tI\tSKIPPED_AFTER_HANGS" % i for i in ids[ids.index(culprit) + 1:])
+            break
     return out
 
 
-CONFIRM_TIMEOUT = 300.0   # seconds a single case may take, alone, before it counts as a hang
+CONFIRM_TIMEOUT = 120.0   # seconds a single case may take, alone, before it counts as a hang
+IDLE_TIMEOUT = 60.0      # seconds without any output (a BEGIN line or an answer) before the current case is suspected
+CONFIRM_SHORT = 10.0      # the same, once a hang has been confirmed in this run
+HANGS = {"confirmed": 0}
 ISOLATE = False      # set by a check whose cases must each run in a fresh process
 FEATURES = None      # set by a check that needs a harness built with a cargo feature
 
